@@ -34,6 +34,7 @@ EXCEPTIONS = [
     {"t": "exc", "cls": "LocalErr", "rebuild": False, "kind": "exc"},
     {"t": "exc", "cls": "Outer.Inner", "rebuild": True, "kind": "exc"},          # a top-level class Inner exists as well
     {"t": "exc", "cls": "Outer.Deep.Err", "rebuild": True, "kind": "exc"},
+    {"t": "exc", "cls": "LazyErr", "rebuild": True, "kind": "exc"},               # its module is unloaded between the calls
     {"t": "exc", "cls": "NotRecorded", "rebuild": True, "kind": "nonmemo"},
 ]
 
